@@ -503,7 +503,7 @@ def store4(ctx) -> List[Ob]:
                 continue
             from .ctrl import _guard_conditions
 
-            gtxt = " & ".join(("" if pol else "not ") + A.alpha_key(ast.parse(t, mode="eval").body) for t, pol in reversed(_guard_conditions(fn.node, stmt)[:3]))
+            gtxt = " & ".join(A.cond_key(t, pol) for t, pol in reversed(_guard_conditions(fn.node, stmt)[:3]))
             mkey = key + " :: " + A.alpha_key(stmt) + (" under " + gtxt if kind != "store" and gtxt else "")
             mwhere = ctx.where(fn, stmt)
             if kind == "store":
